@@ -59,6 +59,14 @@ def check(run):
     cache(run, p, km)
     datelang(run, p)
     rexclosure(run, p)
+    # the .tdda file written by discovery is what verification reads
+    from .c09 import strip
+    strip(run, p)
+    run.rules['C01-STRIP'] = run.rules.pop('C09-STRIP') + ' (discovered constraints reach verification through this text)'
+    for o in run.obs:
+        if o.rule == 'C09-STRIP':
+            o.rule = 'C01-STRIP'
+    run.floors = [(('C01-STRIP' if r == 'C09-STRIP' else r), c, m) for r, c, m in run.floors]
 
 
 def shared(run, p, gm):
@@ -349,6 +357,7 @@ def rexclosure(run, p):
     c03.widen(run, p, I)
     c03.engine(run, p)
     c03.catsync(run, p)
+    c03.evidence(run, p)
     ren = {}
     for o in run.obs[before:]:
         ren[o.rule] = o.rule.replace('C03-', 'C01-REX-')
